@@ -10462,7 +10462,10 @@ func (l *Lowerer) resolveParameterizedType(t *parser.NamedType) (ir.TypeHandle, 
 		if !ok {
 			return 0, fmt.Errorf("scalar type handle %d not found in registry", scalarType)
 		}
-		scalar := typ.Inner.(ir.ScalarType)
+		scalar, isScalar := typ.Inner.(ir.ScalarType)
+		if !isScalar {
+			return 0, fmt.Errorf("vector component type of %s must be a scalar type", t.Name)
+		}
 		return l.registerType("", ir.VectorType{
 			Size:   ir.VectorSize(size),
 			Scalar: scalar,
@@ -10483,7 +10486,10 @@ func (l *Lowerer) resolveParameterizedType(t *parser.NamedType) (ir.TypeHandle, 
 		if !ok {
 			return 0, fmt.Errorf("scalar type handle %d not found in registry", scalarType)
 		}
-		scalar := typ.Inner.(ir.ScalarType)
+		scalar, isScalar := typ.Inner.(ir.ScalarType)
+		if !isScalar {
+			return 0, fmt.Errorf("matrix component type of %s must be a scalar type", t.Name)
+		}
 		return l.registerType("", ir.MatrixType{
 			Columns: ir.VectorSize(cols),
 			Rows:    ir.VectorSize(rows),
